@@ -24,7 +24,7 @@ PROP = "C09"
 def closures(schema, doc):
     """-> (inputs needed, enums lower bound given retained inputs fn, enums upper-extra from any fragment)"""
     from graphql import (FieldNode, FragmentDefinitionNode, FragmentSpreadNode, GraphQLEnumType, GraphQLInputObjectType, InlineFragmentNode,
-                         OperationDefinitionNode, get_named_type, type_from_ast)
+                         OperationDefinitionNode, get_named_type, is_abstract_type, type_from_ast)
 
     frags = {d.name.value: d for d in doc.definitions if isinstance(d, FragmentDefinitionNode)}
     ops = [d for d in doc.definitions if isinstance(d, OperationDefinitionNode)]
@@ -61,7 +61,14 @@ def closures(schema, doc):
                     out.add(named.name)
         return out
 
-    def result_enums(selset, t, stack=()) -> Set[str]:
+    def possible_names(t) -> Set[str]:
+        if is_abstract_type(t):
+            return {o.name for o in schema.get_possible_types(t)}
+        return {t.name}
+
+    def result_enums(selset, t, stack=(), poss=None) -> Set[str]:
+        """enums of the fields selected below `selset`.  With `poss` (the runtime types an object at this position can have) branches whose type
+        condition no object of the position can satisfy are left out: nothing can ever be returned for them, so they are not result fields."""
         out: Set[str] = set()
         for s in selset.selections:
             if isinstance(s, FieldNode):
@@ -71,22 +78,35 @@ def closures(schema, doc):
                 if isinstance(named, GraphQLEnumType):
                     out.add(named.name)
                 if s.selection_set:
-                    out |= result_enums(s.selection_set, named, stack)
+                    out |= result_enums(s.selection_set, named, stack, possible_names(named) if poss is not None else None)
             elif isinstance(s, InlineFragmentNode):
                 tt = schema.type_map[s.type_condition.name.value] if s.type_condition else t
-                out |= result_enums(s.selection_set, tt, stack)
+                sub = None
+                if poss is not None:
+                    sub = poss & possible_names(tt)
+                    if not sub:
+                        continue
+                out |= result_enums(s.selection_set, tt, stack, sub)
             elif isinstance(s, FragmentSpreadNode):
                 if s.name.value in stack:
                     continue
                 f = frags[s.name.value]
-                out |= result_enums(f.selection_set, schema.type_map[f.type_condition.name.value], stack + (s.name.value,))
+                tt = schema.type_map[f.type_condition.name.value]
+                sub = None
+                if poss is not None:
+                    sub = poss & possible_names(tt)
+                    if not sub:
+                        continue
+                out |= result_enums(f.selection_set, tt, stack + (s.name.value,), sub)
         return out
 
     op_enums: Set[str] = set()
+    op_enums_textual: Set[str] = set()
     for op in ops:
         root = {"query": schema.query_type, "mutation": schema.mutation_type, "subscription": schema.subscription_type}[op.operation.value]
-        op_enums |= result_enums(op.selection_set, root)
-    frag_enums: Set[str] = set()
+        op_enums |= result_enums(op.selection_set, root, (), {root.name})
+        op_enums_textual |= result_enums(op.selection_set, root)
+    frag_enums: Set[str] = set(op_enums_textual)
     for f in frags.values():
         frag_enums |= result_enums(f.selection_set, schema.type_map[f.type_condition.name.value])
     return var_inputs, var_enums, input_closure, enums_of_inputs, op_enums, frag_enums
